@@ -12,7 +12,7 @@ import base64
 
 from ..gen import cells as G
 from ..gen import bocdags as D
-from ..translate import boccells, bocemit
+from ..translate import arith, boccells, bocemit, bsops, cellctor, entrysrc
 
 SPEC = dict(
     manifest=dict(
@@ -49,8 +49,14 @@ SPEC = dict(
                   '+ full round trip through the library as oracle + differential correspondence of every model',
     ),
     translators=[('deserialize.py deserialize_boc_header, deserialize_cell, deserialize->Generated/BocHeader.lean, BocCells.lean', boccells.regenerate),
-                 (bocemit.TIE_NAME, bocemit.regenerate_tied)],
-    lean_targets=['TonVerif.Proofs.SrcBocDeser', 'TonVerif.Proofs.SrcBocEmit', 'TonVerif.Proofs.SrcOrderAny', 'TonVerif.Proofs.SrcBocAny'],
+                 (bocemit.TIE_NAME, bocemit.regenerate_tied),
+                 # the entry points call the regenerated constructor and the regenerated Builder.store_cell: regenerate these first
+                 ('exotic.py LevelMask->Generated/LevelMask.lean', arith.regenerator('LevelMask')),
+                 ('cell.py Cell.__init__/resolve_mask/calculate_hashes/get_data_bytes->Generated/CellCtor.lean', cellctor.regenerate),
+                 ('builder.py/tvm_bitarray.py store_* methods->Generated/BuilderOps.lean', bsops.regenerator('BuilderOps')),
+                 (entrysrc.TIE_NAME, entrysrc.regenerate)],
+    lean_targets=['TonVerif.Proofs.SrcBocDeser', 'TonVerif.Proofs.SrcBocEmit', 'TonVerif.Proofs.SrcOrderAny', 'TonVerif.Proofs.SrcBocAny',
+                  'TonVerif.Proofs.SrcEntry'],
     design_ref='DESIGN.md §6 C03',
     rule='same DAG generators as C04; each DAG x 6 option sets x {bytes, hex, base64} x {Cell, Slice, Builder}.one_from_boc (large DAGs: all option sets through Cell/bytes, one option set '
          'through all forms and entry points); distinct = distinct (dag, root, option set, form, entry); non-trivial = more than one cell or non-empty data',
@@ -266,10 +272,66 @@ def check_forms_oracle(ctx, texts):
                 ctx.fail(f'forms:{form}', f'Boc({form} text of a byte string).data differs from the byte string', {'bytes': b.hex(), 'form': form, 'text': f(b)[:200]}, str(got)[:80], b.hex())
 
 
+def check_conversions(ctx, tag, nodes, root):
+    """the conversions of Model/BocEntry.lean / Generated/EntrySrc.lean on the library alone: a cell taken through copy(),
+    begin_parse().to_cell(), to_slice().to_cell(), Slice.from_cell().to_cell(), a partly read slice's copy() / to_cell(), and (ordinary
+    cells) to_builder().end_cell() / to_cell() / to_slice().to_cell() is the SAME cell: hash, bits, type, references recursively"""
+    from pytoniq_core.boc.slice import Slice
+    c = G.lib_build(nodes)[root if root is not None else len(nodes) - 1]
+    if c is None:
+        return
+    inp = {'tag': tag, 'dag': [list(n) for n in nodes], 'root': root}
+    routes = [('copy', lambda: c.copy()), ('begin_parse.to_cell', lambda: c.begin_parse().to_cell()), ('to_slice.to_cell', lambda: c.to_slice().to_cell()),
+              ('Slice.from_cell.to_cell', lambda: Slice.from_cell(c).to_cell()), ('begin_parse.copy.to_cell', lambda: c.begin_parse().copy().to_cell())]
+    if c.type_ == -1:
+        routes += [('to_builder.end_cell', lambda: c.to_builder().end_cell()), ('to_builder.to_cell', lambda: c.to_builder().to_cell()),
+                   ('to_builder.to_slice.to_cell', lambda: c.to_builder().to_slice().to_cell())]
+    for name, f in routes:
+        ctx.case(('conv', tag, root, name), nontrivial=bool(nodes[root if root is not None else -1][1] or nodes[root if root is not None else -1][2]))
+        try:
+            why = same_dag(c, f())
+        except Exception as e:
+            why = f'raised {type(e).__name__}: {e}'
+        if why:
+            ctx.fail(f'conversion:{name}:{why.split(" at ")[0][:40]}', f'{name} of a cell does not give the same cell back: {why}', dict(inp, route=name), why, 'identical hash and structure')
+    if c.refs and len(c.bits) >= 1:
+        # a partly read slice: to_cell() / copy() hold exactly the REMAINING bits and references
+        for name, f in (('read.to_cell', lambda s: s.to_cell()), ('read.copy.to_cell', lambda s: s.copy().to_cell())):
+            try:
+                s = c.begin_parse()
+                s.load_bit()
+                s.load_ref()
+                d = f(s)
+                why = None if (d.bits.to01() == c.bits.to01()[1:] and [r.hash for r in d.refs] == [r.hash for r in c.refs[1:]] and d.type_ == c.type_) else \
+                    'not the remaining bits / references'
+            except Exception as e:
+                why = None if c.type_ != -1 else f'raised {type(e).__name__}: {e}'        # the rest of an exotic cell need not be a valid cell
+            ctx.case(('conv', tag, root, name))
+            if why:
+                ctx.fail(f'conversion:{name}:{why[:40]}', f'{name} of a slice after load_bit / load_ref: {why}', dict(inp, route=name), why, 'remaining bits and references')
+
+
 def src_search(ctx):
-    """a source obligation broke: (emitter / forms) Lean compares regenerated vs hand model on boundary DAGs and texts, the differing
-    ones are round-tripped first; (parser) round-trip the boundary DAGs of C05's cell grid"""
+    """a source obligation broke: (entry points) Lean compares the regenerated entry points / conversions with Model/BocEntry.lean on small DAGs
+    and on bags in every input form, the differing ones go to the round-trip oracle and the conversion oracle first; (emitter / forms) Lean
+    compares regenerated vs hand model on boundary DAGs and texts, the differing ones are round-tripped first; (parser) round-trip the boundary
+    DAGs of C05's cell grid"""
     from . import C05
+    ecases = entrysrc.validation_dags()
+    efound, edata = entrysrc.diff_inputs(ctx, ecases, entrysrc.validation_data())
+    by_tag = {t: (n, r) for t, n, r in ecases}
+    hit = [(t, n, r) for t, n, r, _ in efound]
+    for tag, _, _ in edata:
+        t = tag.split(':')[0]
+        if t in by_tag and t not in {x[0] for x in hit}:
+            hit.append((t,) + by_tag[t])
+    for tag, nodes, root in hit[:25]:
+        check_conversions(ctx, 'src-entry-' + tag, nodes, root)
+        check_case(ctx, 'src-entry-' + tag, nodes, root)
+        if len(ctx.failures) >= 3:
+            return True
+    if ctx.failures:
+        return True
     cases = [c for c in bocemit.validation_dags() if len(c[1]) <= bocemit.BIG]
     texts = [t for t in bocemit.validation_texts() if t.isascii()]
     found, ftexts = bocemit.diff_inputs(ctx, cases, texts)
@@ -312,6 +374,9 @@ def run(ctx):
 
 def replay(ctx, payload):
     inp = payload.get('input') or {}
+    if isinstance(inp.get('dag'), list) and inp.get('route'):
+        nodes = [(k, b, tuple(r)) for k, b, r in inp['dag']]
+        return check_conversions(ctx, inp.get('tag', 'replay'), nodes, inp.get('root'))
     if isinstance(inp.get('dag'), list):
         nodes = [(k, b, tuple(r)) for k, b, r in inp['dag']]
         check_case(ctx, inp.get('tag', 'replay'), nodes, inp.get('root'),
